@@ -26,6 +26,12 @@
 #include <typeinfo>
 #include "session_memory_storage.h"
 #include "session_posix_file_storage.h"
+#include "session_tcp_storage.h"
+#include "tcp_cache_server.h"
+#include "base_cache.h"
+#include <sys/socket.h>
+#include <netinet/in.h>
+#include <arpa/inet.h>
 #include <map>
 #include <set>
 #include <memory>
@@ -68,12 +74,12 @@ struct logging_storage : public sessions::session_storage {
 
 struct logging_factory : public sessions::session_storage_factory {
 	std::unique_ptr<sessions::session_storage_factory> real;
-	booster::shared_ptr<sessions::session_storage> inner;
+	booster::shared_ptr<sessions::session_storage> inner;	// the object that holds the records (probed for the listing)
 	booster::shared_ptr<sessions::session_storage> wrapped;
-	logging_factory(sessions::session_storage_factory *r) : real(r)
+	logging_factory(sessions::session_storage_factory *r,booster::shared_ptr<sessions::session_storage> backend=booster::shared_ptr<sessions::session_storage>()) : real(r)
 	{
-		inner=real->get();
-		wrapped.reset(new logging_storage(inner));
+		inner = backend ? backend : real->get();
+		wrapped.reset(new logging_storage(real->get()));
 	}
 	booster::shared_ptr<sessions::session_storage> get() { return wrapped; }
 	bool requires_gc() { return real->requires_gc(); }
@@ -118,12 +124,26 @@ struct adapter : public session_interface_cookie_adapter {
 static std::unique_ptr<session_pool> pool;
 static logging_factory *factory=0;	// owned by the pool
 static std::string kind;
+// network storage: session_tcp_storage -> in-process tcp_cache_service -> session_memory_storage
+static std::unique_ptr<cppcms::impl::tcp_cache_service> tcp_svc;
+static booster::shared_ptr<sessions::session_storage_factory> tcp_backend;
 static std::string files_dir;
 static std::string base_dir=".";
 static int history_no=0;
 static std::map<int,jar> jars;
 static std::vector<std::string> issued;
 static std::set<std::string> mentioned;
+
+static int free_port()
+{
+	int s=socket(AF_INET,SOCK_STREAM,0);
+	sockaddr_in a; memset(&a,0,sizeof a);
+	a.sin_family=AF_INET; a.sin_addr.s_addr=htonl(INADDR_LOOPBACK); a.sin_port=0;
+	int p=0;
+	if(bind(s,(sockaddr*)&a,sizeof a)==0) { socklen_t l=sizeof a; getsockname(s,(sockaddr*)&a,&l); p=ntohs(a.sin_port); }
+	close(s);
+	return p;
+}
 
 static void rm_dir(std::string const &d)
 {
@@ -203,7 +223,7 @@ static std::string store_listing()
 {
 	std::vector<std::string> rows;
 	std::set<std::string> keys;
-	if(kind=="memory") keys=saved_keys;
+	if(kind=="memory" || kind=="network") keys=saved_keys;
 	else {
 		DIR *dir=opendir(files_dir.c_str());
 		if(dir) {
@@ -218,7 +238,7 @@ static std::string store_listing()
 		bool ok=false;
 		try { ok=factory->inner->load(*p,to,data); } catch(...) { ok=false; }
 		if(ok) rows.push_back(canon_key(*p)+"@"+std::to_string((long long)to)+"="+adler_abbr(data));
-		else if(kind!="memory") rows.push_back(canon_key(*p)+"@?");
+		else if(kind=="files") rows.push_back(canon_key(*p)+"@?");
 	}
 	virtual_now=keep;
 	std::sort(rows.begin(),rows.end());
@@ -229,6 +249,7 @@ static std::string do_new(std::vector<std::string> const &w)
 {
 	if(w.size()!=6) return "bad-op";
 	pool.reset(); factory=0;
+	tcp_svc.reset(); tcp_backend.reset();
 	if(!files_dir.empty()) { rm_dir(files_dir); files_dir.clear(); }
 	jars.clear(); issued.clear(); mentioned.clear(); calls.clear(); saved_keys.clear();
 	std::string loc=w[1]; kind=w[2];
@@ -253,8 +274,22 @@ static std::string do_new(std::vector<std::string> const &w)
 			// arguments of session_pool::init for a pool without a service: (dir, hw+1, 2, true)
 			real=new sessions::session_file_storage_factory(files_dir,5,2,true);
 		}
+		else if(kind=="network") {
+			tcp_backend.reset(new sessions::session_memory_storage_factory());
+			int port=0;
+			for(int attempt=0;;attempt++) {
+				port=free_port();
+				try {
+					tcp_svc.reset(new cppcms::impl::tcp_cache_service(booster::intrusive_ptr<cppcms::impl::base_cache>(),tcp_backend,1,"127.0.0.1",port));
+					break;
+				}
+				catch(std::exception const &) { if(attempt>50) throw; }
+			}
+			std::vector<std::string> ips(1,"127.0.0.1"); std::vector<int> ports(1,port);
+			factory=new logging_factory(new sessions::tcp_factory(ips,ports),tcp_backend->get());
+		}
 		else return "bad-op";
-		factory=new logging_factory(real);
+		if(!factory) factory=new logging_factory(real);
 		pool->storage(std::unique_ptr<sessions::session_storage_factory>(factory));
 	}
 	pool->init();
@@ -392,7 +427,7 @@ int main(int argc,char **argv)
 {
 	if(argc>1) base_dir=argv[1];
 	int r=vh::drive(run);
-	pool.reset();
+	pool.reset(); tcp_svc.reset(); tcp_backend.reset();
 	if(!files_dir.empty()) rm_dir(files_dir);
 	return r;
 }
